@@ -1,5 +1,54 @@
 #![no_main]
+//! C17: any request text over a small dataset through every string entry point; the oracle is
+//! kvh::req_oracle::check_text (snapshot unchanged on query paths and on Err, Err for what the parser
+//! rejects, no panic). Failures whose signature is an open known finding are tolerated so the campaign goes on.
+use kvh::engine::Outcome;
+use kvh::sparql::{DataSet, Tm};
 use libfuzzer_sys::fuzz_target;
-fuzz_target!(|data: &[u8]| {
-    let _ = data;
+use std::sync::OnceLock;
+
+fn known() -> &'static Vec<String> {
+    static K: OnceLock<Vec<String>> = OnceLock::new();
+    K.get_or_init(|| {
+        std::fs::read_to_string("/verif/known_findings.json")
+            .ok()
+            .and_then(|s| serde_json::from_str::<serde_json::Value>(&s).ok())
+            .map(|v| {
+                v["findings"]
+                    .as_array()
+                    .map(|a| {
+                        a.iter()
+                            .filter(|f| f["status"] == "open" && f["property"] == "C17")
+                            .flat_map(|f| f["sigs"].as_array().cloned().unwrap_or_default())
+                            .filter_map(|s| s.as_str().map(|x| x.to_string()))
+                            .collect()
+                    })
+                    .unwrap_or_default()
+            })
+            .unwrap_or_default()
+    })
+}
+
+fn data() -> &'static DataSet {
+    static D: OnceLock<DataSet> = OnceLock::new();
+    D.get_or_init(|| {
+        let i = |s: &str| Tm::Iri(format!("http://e/{s}"));
+        DataSet {
+            default: vec![[i("s0"), i("p0"), i("s1")], [i("s1"), i("tag"), Tm::Lit("red".into())], [i("s0"), i("val"), Tm::Num(3)]],
+            named: vec![("http://e/g0".into(), vec![[i("s1"), i("p0"), i("o0")]])],
+        }
+    })
+}
+
+fuzz_target!(|bytes: &[u8]| {
+    static HOOK: OnceLock<()> = OnceLock::new();
+    HOOK.get_or_init(|| kvh::engine::install_panic_hook());
+    let text = String::from_utf8_lossy(bytes);
+    let mut o = Outcome::new();
+    kvh::req_oracle::check_text(&mut o, data(), &text, false, true);
+    let bad: Vec<_> = o.failures.iter().filter(|f| !known().contains(&f.sig)).collect();
+    if !bad.is_empty() {
+        eprintln!("C17 violation: {:?}", bad);
+        std::process::abort();
+    }
 });
